@@ -1,6 +1,6 @@
 (** C10 — records are cut independently of one another.  Statements only. *)
 From TucModel Require Import Base.Bytes Model.Bounds Model.Scan Model.Opt Model.CutBytes Model.CutStr
-     Model.FastLane Model.Stream Proofs.C04 Proofs.C10 Proofs.C10Stream.
+     Model.FastLane Model.Stream Proofs.C04 Proofs.C10 Proofs.C10Stream Model.Scratch Proofs.C10Scratch.
 
 (** general path (-f with any options, -c, --json): for every A, B the run over
     (A ++ EOL) ++ B is the run over A ++ EOL followed by the run over B *)
@@ -62,7 +62,29 @@ Theorem C10_failure_is_preserved_fixed_memory :
     run_stream_whole so ((A ++ [s_eol so]) ++ B) = Fail pre.
 Proof. exact C10_stream_failure_prefix. Qed.
 
+(** "nothing computed for one record (field positions, compressed copies, ...) influences another": with
+    the scratch buffers the code reuses made explicit - the fields vector, the compressed-line buffer, the
+    fast lane's vector of field starts, each updated by [clear]/[push]/[pop]/[drain]/[extend] in the code's
+    order - a record prints the same whatever the buffers held when it arrived, and a run that hands them
+    from record to record prints what the stateless run prints (so the theorems above hold for it) *)
+Theorem C10_a_record_ignores_the_scratch_buffers :
+  forall (s s' : scratch) (o : opt) (line : bytes),
+    fst (cut_str_st s o line) = fst (cut_str_st s' o line)
+    /\ fst (cut_fast_st s o line) = fst (cut_fast_st s' o line).
+Proof. exact C10_record_ignores_scratch. Qed.
+
+Theorem C10_general_path_with_reused_buffers :
+  forall (o : opt) (input : bytes), read_and_cut_str_st o input = read_and_cut_str o input.
+Proof. exact C10_general_path_scratch. Qed.
+
+Theorem C10_fast_path_with_reused_buffers :
+  forall (o : opt) (input : bytes), read_and_cut_fast_st o input = read_and_cut_fast o input.
+Proof. exact C10_fast_path_scratch. Qed.
+
 Print Assumptions C10_general_path.
+Print Assumptions C10_a_record_ignores_the_scratch_buffers.
+Print Assumptions C10_general_path_with_reused_buffers.
+Print Assumptions C10_fast_path_with_reused_buffers.
 Print Assumptions C10_fast_path.
 Print Assumptions C10_failure_is_preserved.
 Print Assumptions C10_failure_is_preserved_fast.
